@@ -638,6 +638,8 @@ func runC18(p *core.Prog, r *core.Report) {
 		})
 		r.Check(okFresh, "C18.R4", "Array.UnmarshalVTNoAlloc/fresh-item", "every element of the array is decoded into an Item allocated for that element (no reuse of the previous one)", "the appended element is not a new Item of that iteration", p.Pos(af.Pos()))
 		checkNoSilentTruncation(p, r, "C18.R4", []loopSite{{pkgPBOut, "Map.MarshalFast", nil}, {pkgPBOut, "Map.UnmarshalFast", nil}})
+		checkNoElementSkipped(p, r, "C18.R2", pkgMarsh, "ProtoingFast.kvByteSize", "ProtoingFast.listByteSize", "ProtoingFast.writeKV", "ProtoingFast.writeDeletePrefix")
+		checkNoElementSkipped(p, r, "C18.R4", pkgPBOut, "Map.MarshalFast")
 	})
 	r.Guard("C18.R4", "fresh-reader", "upload reader per attempt", func() { checkFreshReaderPerAttempt(p, r, "C18.R4") })
 	r.MinInstances("C18.R4", 4)
